@@ -174,7 +174,9 @@ fn enabled(p: Pending, st: &St) -> bool {
         Pending::MsgStart(_) | Pending::TaskStart => true,
         Pending::MainFinish => st.tasks_ended.len() == st.tasks_created.len() && st.pending_starts == 0,
         Pending::VfsWrite => !st.writer && st.readers == 0,
-        Pending::VfsRead(_) => !st.writer,
+        // std's RwLock on this platform prefers writers: a thread that has arrived at write() while the lock
+        // is held is a waiting writer, and new readers queue behind it (also a reader re-entering the lock)
+        Pending::VfsRead(_) => !st.writer && !(st.readers > 0 && st.parked.values().any(|p| *p == Pending::VfsWrite)),
         Pending::SalsaWrite(_) => st.snapshots == 0,
     }
 }
@@ -190,16 +192,17 @@ pub const REQUESTS: &[&str] = &[
     "textDocument/foldingRange",
 ];
 
-/// Message menu: 0 = didChange, 1.. = the request kinds.
+/// Message menu: 0 = didChange of the root document, 1 = didOpen/didChange of a second document
+/// (which becomes the root, so that the previous root leaves the workspace), 2.. = the request kinds.
 pub fn menu_len() -> usize {
-    1 + REQUESTS.len()
+    2 + REQUESTS.len()
 }
 
 fn message_name(m: usize) -> &'static str {
-    if m == 0 {
-        "didChange"
-    } else {
-        REQUESTS[m - 1]
+    match m {
+        0 => "didChange(a)",
+        1 => "touch(b)",
+        _ => REQUESTS[m - 2],
     }
 }
 
@@ -230,6 +233,7 @@ pub fn execute(scenario: &[usize], prefix: &[usize], dir: &PathBuf) -> Outcome {
     let rt = tokio::runtime::Builder::new_multi_thread().worker_threads(1).max_blocking_threads(8).enable_all().build().expect("runtime");
     let handle = rt.handle().clone();
     let uri = uri_of(&dir.join("a.td"));
+    let uri_b = uri_of(&dir.join("b.td"));
     let script: Vec<usize> = scenario.to_vec();
     let (tx, rx) = std::sync::mpsc::channel::<Result<Vec<String>, String>>();
     let sh = shared.clone();
@@ -245,6 +249,7 @@ pub fn execute(scenario: &[usize], prefix: &[usize], dir: &PathBuf) -> Outcome {
                 let doc = json!({ "uri": uri });
                 let mut futures = Vec::new();
                 let mut version = 1;
+                let mut b_open = false;
                 // message 0 is always didOpen
                 for (k, m) in std::iter::once(usize::MAX).chain(script.iter().copied()).enumerate() {
                     sh.park(Key::Main, Pending::MsgStart(k));
@@ -260,8 +265,22 @@ pub fn execute(scenario: &[usize], prefix: &[usize], dir: &PathBuf) -> Outcome {
                             "textDocument": { "uri": uri, "version": version }, "contentChanges": [ { "text": text } ] } }))
                         .unwrap();
                         let _ = router.notify(n);
+                    } else if m == 1 {
+                        version += 1;
+                        let text = if version % 2 == 0 { "class A;\nclass Extra;\n" } else { INCLUDED_TEXT };
+                        let n: AnyNotification = if b_open {
+                            serde_json::from_value(json!({ "method": "textDocument/didChange", "params": {
+                                "textDocument": { "uri": uri_b, "version": version }, "contentChanges": [ { "text": text } ] } }))
+                            .unwrap()
+                        } else {
+                            serde_json::from_value(json!({ "method": "textDocument/didOpen", "params": {
+                                "textDocument": { "uri": uri_b, "languageId": "tablegen", "version": version, "text": text } } }))
+                            .unwrap()
+                        };
+                        b_open = true;
+                        let _ = router.notify(n);
                     } else {
-                        let method = REQUESTS[m - 1];
+                        let method = REQUESTS[m - 2];
                         let params = match method {
                             "textDocument/inlayHint" => json!({ "textDocument": doc, "range": { "start": { "line": 0, "character": 0 }, "end": { "line": 3, "character": 0 } } }),
                             "textDocument/references" => json!({ "textDocument": doc, "position": { "line": 1, "character": 10 }, "context": { "includeDeclaration": false } }),
@@ -370,7 +389,7 @@ pub fn execute(scenario: &[usize], prefix: &[usize], dir: &PathBuf) -> Outcome {
             if let Some(bad) = responses.iter().find(|r| !r.ends_with(": ok")) {
                 out.problem.get_or_insert(("no-response".into(), bad.clone()));
             }
-            let requests = scenario.iter().filter(|&&m| m != 0).count();
+            let requests = scenario.iter().filter(|&&m| m >= 2).count();
             if responses.len() != requests {
                 out.problem.get_or_insert(("no-response".into(), format!("{} responses for {requests} requests", responses.len())));
             }
@@ -382,10 +401,10 @@ pub fn execute(scenario: &[usize], prefix: &[usize], dir: &PathBuf) -> Outcome {
             out.problem.get_or_insert(("machinery".into(), "main-loop thread returned nothing".into()));
         }
     }
-    // each open/change publishes for both workspace files
-    let notifications = 1 + scenario.iter().filter(|&&m| m == 0).count() as u32;
-    if published < 2 * notifications && out.problem.is_none() {
-        out.problem = Some(("notification-not-processed".into(), format!("{published} publications for {notifications} open/change notifications (2 files each)")));
+    // each open/change publishes at least once (for every file of the workspace it selects)
+    let notifications = 1 + scenario.iter().filter(|&&m| m < 2).count() as u32;
+    if published < notifications && out.problem.is_none() {
+        out.problem = Some(("notification-not-processed".into(), format!("{published} publications for {notifications} open/change notifications")));
     }
     rt.shutdown_background();
     lsp::verif::set_callback(None);
@@ -464,10 +483,10 @@ impl Engine for C08 {
 
     fn rule(&self, tier: Tier) -> String {
         format!(
-            "scenarios didOpen ; m2 [; m3 [; m4]] with m in {{didChange, definition, references, hover, documentSymbol, inlayHint, completion, documentLink, foldingRange}}: all {} scenarios; \
+            "scenarios didOpen ; m2 [; m3 [; m4]] with m in {{didChange of the root document, didOpen/didChange of a second document (the root switches, the old root leaves the workspace), definition, references, hover, documentSymbol, inlayHint, completion, documentLink, foldingRange}}: all {} scenarios; \
              for each, EVERY schedule of the schedule points (message start, file-table lock wants, salsa input writes, task start/finish) is executed on the real Server router with real salsa and the real tokio blocking pool, \
              depth-first over all choice sequences{}. states = distinct (parked threads, program counters, lock model) configurations at choice points; transitions = resumptions; non-trivial = schedules with at least one real choice.",
-            tier.pick("9 two-message and 81 three-message", "9 + 81 + 729 (two-, three- and four-message)"),
+            tier.pick("10 two-message and 100 three-message", "10 + 100 + 1000 (two-, three- and four-message)"),
             tier.pick("", "; four-message scenarios do not re-expand an already expanded state (sound because handlers are straight-line between schedule points)")
         )
     }
@@ -475,6 +494,7 @@ impl Engine for C08 {
     fn assumptions(&self) -> Vec<String> {
         vec![
             "locks that are not hooked (salsa's per-slot locks, the tokio pool queue, the unbounded client channel, the published-files mutex taken only by diagnostics tasks) are leaf locks".into(),
+            "the file-table lock is modelled as writer-preferring (std::sync::RwLock on Linux: once a writer waits, new readers - including a reader re-entering the lock - queue behind it), which is the behaviour std documents as possible and this platform exhibits".into(),
             "the lock model (file-table writer/readers, snapshots alive) is asserted against reality at every Acquired/Done event and by a 15 s watchdog on every resumed thread; a disagreement is a machinery error, not a verdict".into(),
             "the async-lsp layers of main.rs other than the router (ConcurrencyLayer etc.) and memory-ordering effects are not explored".into(),
         ]
